@@ -947,6 +947,17 @@ func UnparseQuery(q b6.Query) (string, bool) {
 	return "", false
 }
 
+// unparseSubQuery brackets nested and/or queries, since the grammar gives
+// & and | the same precedence and groups them to the right.
+func unparseSubQuery(q b6.Query) (string, bool) {
+	s, ok := unparseQuery(q)
+	switch q.(type) {
+	case b6.Intersection, b6.Union, *b6.Intersection, *b6.Union:
+		s = "[" + s + "]"
+	}
+	return s, ok
+}
+
 func unparseQuery(q b6.Query) (string, bool) {
 	// TODO: Escape query literals properly
 	switch q := q.(type) {
@@ -958,7 +969,7 @@ func unparseQuery(q b6.Query) (string, bool) {
 		qs := make([]string, len(q))
 		for i := range q {
 			var ok bool
-			if qs[i], ok = unparseQuery(q[i]); !ok {
+			if qs[i], ok = unparseSubQuery(q[i]); !ok {
 				return "", false
 			}
 		}
@@ -967,7 +978,7 @@ func unparseQuery(q b6.Query) (string, bool) {
 		qs := make([]string, len(q))
 		for i := range q {
 			var ok bool
-			if qs[i], ok = unparseQuery(q[i]); !ok {
+			if qs[i], ok = unparseSubQuery(q[i]); !ok {
 				return "", false
 			}
 		}
